@@ -6,3 +6,5 @@ import Amqp.Session
 import Amqp.Credit
 import Amqp.Gen.RecvCreditKernels
 import Amqp.RecvCredit
+import Amqp.Gen.FrameKernels
+import Amqp.Frame
